@@ -3,20 +3,25 @@ package main
 import "time"
 
 type spec struct {
-	ID          string
-	Pkg         string // package directory relative to the repository root
-	Level       string // evidence level
-	Instrument  bool   // build with mechanically instrumented sources (schedule exploration)
-	InstrPkgs   []string
-	StmtPoints  []string // functions that get statement-level scheduling points
+	ID           string
+	Pkg          string // package directory relative to the repository root
+	Level        string // evidence level
+	Instrument   bool   // build with mechanically instrumented sources (schedule exploration)
+	InstrPkgs    []string
+	StmtPoints   []string // functions that get statement-level scheduling points
 	AtomicRanges []string // functions whose range loops run without scheduling points (random map iteration order)
-	RacePass    bool
-	Rule        string
-	Assumptions []string
-	QuickBudget time.Duration
-	ThorBudget  time.Duration
-	MemKB       int64
-	Procs       int
+	RacePass     bool
+	Rule         string
+	Assumptions  []string
+	QuickBudget  time.Duration
+	ThorBudget   time.Duration
+	MemKB        int64
+	Procs        int
+	// happens-before race monitor: every access to a field of these struct types (declared in the instrumented packages
+	// or in AccessTypePkgs) is checked; AccessExclude removes field names (e.g. immutable configuration)
+	AccessTypes    []string
+	AccessTypePkgs []string
+	AccessExclude  []string
 }
 
 func (s *spec) instrumentPkgs() []string {
@@ -76,23 +81,28 @@ var commonAssumptions = []string{
 
 var e1Assumptions = append([]string{
 	"media bytes are read back with mediacommon's decoders (fmp4.Parts / fmp4.Init / mpegts.Reader); the muxer uses mediacommon's encoders",
-	"H264/H265 units carry a slice NALU and parameter sets without picture reordering (DTS = PTS); Track.ClockRate is the codec's natural rate",
+	"H264 (except the reorder family) / H265 units carry a slice NALU and parameter sets without picture reordering (DTS = PTS); in the reorder family the decode time of a unit is defined as what mediacommon's h264.DTSExtractor derives from the written PTS / picture-order-count sequence; Track.ClockRate is the codec's natural rate",
 }, commonAssumptions...)
 
 var schedAssumptions = append([]string{
 	"sequential consistency at statement granularity: scheduling points are the library's own synchronisation operations (mutex, rwmutex, cond, waitgroup, channel, select, context cancel, go) plus configured statement-level points",
 	"testing/synctest's definition of durably blocked and its fake clock; a timer never fires while a thread is still enabled",
+	"race monitor: happens-before is over-approximated per channel (one clock per channel) and sync/atomic, sync.Once and the rendezvous edge of unbuffered channels are not modelled (the instrumented code uses none of them for publication)",
 }, commonAssumptions...)
+
+// struct types whose fields are shared between the writer and the request handlers (race monitor)
+var muxerSharedTypes = []string{"Muxer", "muxerStream", "muxerSegmentFMP4", "muxerSegmentMPEGTS", "muxerGap", "muxerPart", "muxerTrack", "muxerSegmenter", "muxerServer", "Track",
+	"fileDisk", "fileRAM", "partDisk", "partRAM", "H264", "H265", "AV1", "VP9", "MPEG4Audio", "Opus"}
 
 var specs = []spec{
 	{ID: "C09", Pkg: ".", Level: "model_checking", Instrument: true, Procs: 1,
 		AtomicRanges: []string{"clientStreamProcessorMPEGTS.joinTrackProcessors"},
-		Rule:        "end-to-end runs in one synctest bubble under the controlled scheduler: a writer thread paces a 9 s word (regular GOPs; a parameter change and an extra key frame; sparse key frames) on the virtual clock into a real Muxer, a real Client attached at 2.6 / 4.3 / 5.9 s reads it through an in-process transport that serves every request in its own thread; 12 muxer configurations (MPEG-TS, fMP4, Low-Latency x H264/H265/VP9/AV1/AAC/Opus, audio-before-video with named / default renditions, audio-only) x entry point {multivariant, leading media playlist} x three canonical schedules, every schedule within 0 (quick) / 1 (thorough) deviations; distinct = distinct (scenario, tracks, delivered units, end)",
-		Assumptions: schedAssumptions},
+		Rule:         "end-to-end runs in one synctest bubble under the controlled scheduler: a writer thread paces a 9 s word (regular GOPs; a parameter change and an extra key frame; sparse key frames) on the virtual clock into a real Muxer, a real Client attached at 2.6 / 4.3 / 5.9 s reads it through an in-process transport that serves every request in its own thread; 12 muxer configurations (MPEG-TS, fMP4, Low-Latency x H264/H265/VP9/AV1/AAC/Opus, audio-before-video with named / default renditions, audio-only) x entry point {multivariant, leading media playlist} x three canonical schedules, every schedule within 0 (quick) / 1 (thorough) deviations; distinct = distinct (scenario, tracks, delivered units, end)",
+		Assumptions:  schedAssumptions},
 	{ID: "C12", Pkg: ".", Level: "model_checking", Instrument: true, Procs: 1,
 		AtomicRanges: []string{"clientStreamProcessorMPEGTS.joinTrackProcessors"},
-		Rule:        "delay-bounded schedule enumeration (every non-default decision costs one; bound 1 quick / 2 thorough, one more with two closers) of the real Client against the scripted transport: streams {fMP4 one playlist, fMP4 video + audio rendition, MPEG-TS, Low-Latency with preload hints} x fault {none, 404, 500, transport error, body that stalls until cancelled, OnTracks error} at every request index x {no Close, Close by a concurrent thread whose single step is thereby placed at every decision point, two Close calls}; distinct = distinct (stream, fault, end, closed-before-end, callback count/4)",
-		Assumptions: schedAssumptions},
+		Rule:         "delay-bounded schedule enumeration (every non-default decision costs one; bound 1 quick / 2 thorough, one more with two closers) of the real Client against the scripted transport: streams {fMP4 one playlist, fMP4 video + audio rendition, MPEG-TS, Low-Latency with preload hints} x fault {none, 404, 500, transport error, body that stalls until cancelled, OnTracks error} at every request index x {no Close, Close by a concurrent thread whose single step is thereby placed at every decision point, two Close calls}; distinct = distinct (stream, fault, end, closed-before-end, callback count/4)",
+		Assumptions:  schedAssumptions},
 	{ID: "C13", Pkg: ".", Level: "fault_enumeration", Instrument: true, Procs: 1,
 		Rule:        "finite mutation catalogue applied to every resource of three base scenarios (fMP4 video+audio in one playlist, fMP4 video + audio rendition through a multivariant playlist, MPEG-TS video+audio): empty body, the body of every other resource, init segments with every codec mediacommon can put into fMP4 (12) alone and next to H264 / AAC, permuted / duplicated / gapped track ids, zero time scales, 12 tracks, fragments without leading-track data, with unknown or swapped track ids, huge base times and durations, 30 fragments, MPEG-TS payloads with other codecs or without leading-track data, garbage; truncation at every box boundary and after every box header, removal and duplication of every box, box sizes 0 and 2^32-1, every 32-bit word of tfhd/tfdt/trun/mfhd/mdhd/mvhd/tkhd/trex set to {0,1,2^31,2^32-1}, tfdt base time in {0,1,2^31,2^32-1,2^63,2^64-1}; truncation at every TS packet boundary and inside every packet, corrupted sync / header bytes of every packet; playlists: every line deletion and duplication, truncation at every (3rd) byte, every stored fuzz-corpus text and a few adversarial playlists; each case is one run of the real Client; distinct = distinct (scenario, resource, mutation kind, end, delivered units)",
 		Assumptions: append([]string{"client goroutines are scheduled by the Go runtime inside a testing/synctest bubble (virtual clock); a 60 s real-time watchdog attributes hangs / busy loops"}, commonAssumptions...)},
@@ -109,9 +119,10 @@ var specs = []spec{
 		Rule:        "(a) decoder: every truncation, single-byte deletion, substitution by each of 16 structural bytes (incl. space and tab), insertion of 4 structural bytes, line deletion / duplication / swap / replacement by white space of every text of the stored fuzz corpora and in-code seeds, plus every sentence of 4 (5) lines over a 23-line menu of valid and degenerate tags: no panic, and on success the structural guarantees callers rely on and a successful Marshal; (b) encoder: the strict RFC 8216 / 8216bis grammar checker on Marshal of every C14 value; distinct = distinct accepted texts / marshalled texts",
 		Assumptions: commonAssumptions},
 	{ID: "C08", Pkg: ".", Level: "model_checking", Instrument: true, RacePass: true, Procs: 1,
-		InstrPkgs:  []string{".", "pkg/storage"},
-		StmtPoints: []string{"partDisk.Reader", "fileDisk.Finalize", "fileDisk.Reader", "fileDisk.NewPart", "fileRAM.Finalize", "fileRAM.Reader"},
-		Rule:        "all interleavings with at most b deviations (b=2 quick / 3 thorough for two readers, one more for one reader) of a writer (scripts: plain frames, part / segment rotation that finalises and removes disk files, window slide, parameter change, a three-times longer segment that raises the target duration, Close) with 1-2 readers each running a 2-request script over the whole URL alphabet (multivariant, media playlist plain / blocking / delta, init, segment, part, preload hint, expired, unknown, and follow-ups of a URI taken from the reader's own previous playlist), for Low-Latency / fMP4 / MPEG-TS with RAM and Directory storage; scheduling points: the library's synchronisation operations plus every statement of the storage functions that run outside the muxer mutex; distinct = distinct (scenario, statuses); the data-race clause is covered by a separate free-running -race pass over the same bodies (not exhaustive)",
+		InstrPkgs:   []string{".", "pkg/storage"},
+		StmtPoints:  []string{"partDisk.Reader", "fileDisk.Finalize", "fileDisk.Reader", "fileDisk.NewPart", "fileRAM.Finalize", "fileRAM.Reader"},
+		AccessTypes: muxerSharedTypes, AccessTypePkgs: []string{"pkg/codecs"},
+		Rule:        "all interleavings with at most b deviations (b=2 quick / 3 thorough for two readers, one more for one reader) of a writer (scripts: plain frames, part / segment rotation that finalises and removes disk files, window slide, parameter change, a three-times longer segment that raises the target duration, Close) with 1-2 readers each running a 2-request script over the whole URL alphabet (multivariant, media playlist plain / blocking / delta, init, segment, part, preload hint, expired, unknown, and follow-ups of a URI taken from the reader's own previous playlist), for Low-Latency / fMP4 / MPEG-TS with RAM and Directory storage; scheduling points: the library's synchronisation operations plus every statement of the storage functions that run outside the muxer mutex; distinct = distinct (scenario, statuses); the data-race clause is decided inside every explored execution by a happens-before monitor (vector clocks over the program's own synchronisation: mutex release/acquire, channel send/close/receive, context cancel, WaitGroup, thread creation - scheduler hand-offs contribute no edge; every access to a field of the muxer, stream, segment, part, track, storage and codec structs is checked against the previous conflicting accesses of the same address), and additionally sampled by a free-running -race pass over the same bodies",
 		Assumptions: schedAssumptions},
 	{ID: "C19", Pkg: ".", Level: "exploration", Procs: 1,
 		Rule:        "complete grid: constant sample duration in {90000/f ticks for 17 (all divisor and 7-/11-multiple) frame rates 1..120, 3003, 1501, 3754 at 90 kHz; 1024 samples at the 13 standard AAC rates; Opus 2.5-60 ms} x PartMinDuration 50..2000 ms step 50 (5) x SegmentMinDuration {1, 2 s} x key-frame spacing {every sample, 0.5 s, 1 s, 2.5 s, three irregular patterns incl. a short first segment}, and video-led with an audio track of each of 4 kinds starting {0, 0.5, 1.25 s} late or listed before the video track, each run long enough for three segments; every playlist of every stream served after a part is published is checked (the rendition playlists for the clauses relating a listed part to the PART-TARGET of its own playlist); distinct = distinct (grid point, observed part duration and PART-TARGET)",
@@ -142,13 +153,14 @@ var specs = []spec{
 		Rule:        "schedule half: all interleavings with at most b deviations (2 quick / 3 thorough for two requesters, one more for a single requester) of a writer feeding k in {1,2,3,5} frames from three positions (part about to be published, just published, segment about to complete) with 1-2 concurrent requests drawn from {blocking reload for the next part / the part after / the open segment / the next segment / part 0 of it / a part index past the end, preload hint, plain playlist, already published, too far, expired, hint after next}; sequential half: every (msn, part) of a grid relative to the playlist at every node of the Low-Latency write trees, malformed directives, delta updates against the full playlist of the same instant; distinct = distinct (scenario, statuses and completion points)",
 		Assumptions: schedAssumptions},
 	{ID: "C07", Pkg: ".", Level: "model_checking", Instrument: true, RacePass: false, Procs: 1,
-		StmtPoints: []string{"Muxer.Close", "muxerStream.close"},
+		StmtPoints:  []string{"Muxer.Close", "muxerStream.close"},
 		Rule:        "all interleavings with at most b deviations (b=2 quick, 3 thorough, unbounded for scenarios with <=1 requester) of a writer that feeds k frames and then calls Close with 0..2(3) requests blocked inside the muxer (multivariant / media playlist before data, blocking reload, preload hint), from several points of the muxer's life (before data, mid-segment, mid-part, window slid), RAM and Directory storage, all three variants; followed by a sequential epilogue of one request of every kind; distinct = distinct (scenario, response statuses and completion points)",
 		Assumptions: schedAssumptions},
 	{ID: "C20", Pkg: ".", Level: "model_checking", Instrument: true, RacePass: true, Procs: 1,
-		Rule:        "all interleavings with at most b deviations (preemptions / non-default select preferences; b=3 quick, 5 thorough, unbounded for the smallest scenarios; points at every mutex acquire/release, channel close, select) of a producer (k pushes, waitUntilSizeIsBelow(n) after each), a consumer (m pulls) and an optional canceller on the real clientSegmentQueue; distinct = distinct (scenario, final observation) pairs",
+		AccessTypes: []string{"*"}, AccessTypePkgs: []string{"pkg/codecs"},
+		Rule:        "all interleavings with at most b deviations (preemptions / non-default select preferences; b=3 quick, 5 thorough, unbounded for the smallest scenarios; points at every mutex acquire/release, channel close, select) of a producer (k pushes, waitUntilSizeIsBelow(n) after each), a consumer (m pulls) and an optional canceller on the real clientSegmentQueue, plus end-to-end look-ahead scenarios with the real downloader and processor; every explored execution is also checked by the happens-before race monitor (every field of every struct of the package); distinct = distinct (scenario, final observation) pairs",
 		Assumptions: schedAssumptions},
 	{ID: "C17", Pkg: "pkg/storage", Level: "model_checking", Procs: 8,
-		Rule: "explicit-state BFS over storage operation sequences (NewPart, Write, Seek, Finalize, Size, open/read readers with several buffer sizes, Remove) applied to the real RAM and disk back ends and a [][]byte model; a state is the exact observable state (part contents, writer position, finalized/removed flags, open readers with offsets); distinct = distinct state keys",
+		Rule:        "explicit-state BFS over storage operation sequences (NewPart, Write, Seek, Finalize, Size, open/read readers with several buffer sizes, Remove) applied to the real RAM and disk back ends and a [][]byte model; a state is the exact observable state (part contents, writer position, finalized/removed flags, open readers with offsets); distinct = distinct state keys",
 		Assumptions: append([]string{"alphabet restricted to the documented usage: a part is written through one Writer while it is the last allocated part; seeks stay within written bytes"}, commonAssumptions...)},
 }
